@@ -36,6 +36,19 @@ fn doc(e: Result<(), String>, what: &str) -> Result<(), Fail> {
     e.map_err(|m| Fail::new(format!("doc.{}", what), format!("the library's {} file violates SERIALIZATION.md: {}", what, m)))
 }
 
+
+/// "loads and answers all queries correctly": a structure with embedded support structures that was loaded from a file
+/// with fewer of them need not be `==` to the original (the property does not say so), it must answer like it.
+fn same_answers(loaded: &dyn Erased, x: &dyn Erased, rep: &mut Report, sig: &str, what: &str) -> Result<(), Fail> {
+    let eq = loaded.eq_dyn(x);
+    let probe = crate::engine::catch(|| loaded.probe()).map_err(|(loc, msg)| Fail::new(format!("{}.panic@{}", sig, loc), format!("{}: a query on the loaded structure panicked at {}: {}", what, loc, msg)))?;
+    if probe != x.probe() {
+        return Err(Fail::new(sig, format!("{} answers the query plan differently from the original (== is {})", what, eq)));
+    }
+    rep.class_if(!eq, "loaded-works-but-not-==-original");
+    Ok(())
+}
+
 fn dres<T>(r: Result<T, String>, what: &str) -> Result<T, Fail> {
     r.map_err(|m| Fail::new(format!("doc.{}", what), format!("the library's {} file cannot be decoded from SERIALIZATION.md: {}", what, m)))
 }
@@ -289,7 +302,7 @@ impl Prop for C07 {
                     let keep = (case.w_choice ^ case.slack.rotate_left(3)) % 8;
                     let mixed = dres(docfmt::strip_sparse_masked(body, keep), "sparse bitvector")?;
                     let loaded = load_doc(x.as_ref(), &wrap(mixed), "sparse bitvector (subset of supports)")?;
-                    ensure!(loaded.eq_dyn(x.as_ref()), "load-doc.sparse-mixed", "a sparse bitvector loaded from a file keeping supports {:03b} of its high part != the original", keep);
+                    same_answers(loaded.as_ref(), x.as_ref(), &mut rep, "load-doc.sparse-mixed", &format!("a sparse bitvector loaded from a file keeping supports {:03b} of its high part", keep))?;
                     if opt == 0 {
                         let sv = loaded.as_any().downcast_ref::<SparseVector>().expect("type");
                         let plan = crate::props::c02::sparse_plan(&model, &[case.slack as u64 * 0x0101_0101_0101_0101], 300);
@@ -360,7 +373,7 @@ impl Prop for C07 {
                     let stripped = dres(docfmt::strip_wm(body), "wavelet matrix")?;
                     ensure!(e.e == stripped, "bytes.wm", "document encoding of the wavelet matrix differs from the library's bytes with supports stripped");
                     let loaded = load_doc(x.as_ref(), &wrap(e.e), "wavelet matrix")?;
-                    ensure!(loaded.eq_dyn(x.as_ref()), "load-doc.wm", "a wavelet matrix loaded from a file without support structures != the original");
+                    same_answers(loaded.as_ref(), x.as_ref(), &mut rep, "load-doc.wm", "a wavelet matrix loaded from a file without support structures")?;
                     if opt == 0 {
                         let wm = loaded.as_any().downcast_ref::<WaveletMatrix>().expect("type");
                         let mut r2 = Report::new();
@@ -373,7 +386,7 @@ impl Prop for C07 {
                     let keep: Vec<u8> = (0..7u8).map(|k| (case.w_choice.wrapping_mul(37).wrapping_add(k.wrapping_mul(11)) ^ case.slack.rotate_left(k as u32)) % 8).collect();
                     let mixed = dres(docfmt::strip_wm_masked(body, &keep), "wavelet matrix")?;
                     let loaded = load_doc(x.as_ref(), &wrap(mixed), "wavelet matrix (subsets of supports per level)")?;
-                    ensure!(loaded.eq_dyn(x.as_ref()), "load-doc.wm-mixed", "a wavelet matrix loaded from a file whose levels keep the supports {:?} != the original", keep);
+                    same_answers(loaded.as_ref(), x.as_ref(), &mut rep, "load-doc.wm-mixed", &format!("a wavelet matrix loaded from a file whose levels keep the supports {:?}", keep))?;
                     if opt == 0 {
                         let wm = loaded.as_any().downcast_ref::<WaveletMatrix>().expect("type");
                         let mut r2 = Report::new();
@@ -392,7 +405,7 @@ impl Prop for C07 {
                     let stripped = dres(docfmt::strip_core(body), "wavelet matrix core")?;
                     ensure!(e.e == stripped, "bytes.core", "document encoding of the core differs from the library's bytes with supports stripped");
                     let loaded = load_doc(x.as_ref(), &wrap(e.e), "wavelet matrix core")?;
-                    ensure!(loaded.eq_dyn(x.as_ref()), "load-doc.core", "a core loaded from a file without support structures != the original");
+                    same_answers(loaded.as_ref(), x.as_ref(), &mut rep, "load-doc.core", "a core loaded from a file without support structures")?;
                     if opt == 0 && vals.len() <= 2000 {
                         let core = loaded.as_any().downcast_ref::<WMCore>().expect("type");
                         c04::check_core(core, &vm, &dummy).map_err(|mut f| {
